@@ -119,6 +119,48 @@ def run_purity(c):
         except ValueError:
             pass
         check("setters and reads")
+    elif w == "out":
+        # arrays handed OUT by the getters must be safe to modify in place: afterwards the law (the parameters it
+        # reports, C, S) is either unchanged or consistent with a law rebuilt from what it now reports
+        cls = getattr(_laws, c["cls"])
+        kw = dict(c["scalars"])
+        for k in c["fields"]:
+            kw[k] = args[k]
+        axkw = {}
+        if c["cls"] == "TransverselyIsotropic":
+            axkw = dict(axis_l=args["axis1"], axis_t=args["axis2"])
+        elif c["cls"] == "Orthotropic":
+            axkw = dict(axis_1=args["axis1"], axis_2=args["axis2"])
+        m1 = cls(c["dim"], **kw, **axkw)
+        C0, S0 = m1.C, m1.S
+        names = list(c["fields"]) + list(c["scalars"])
+        touched = []
+        getters = [(n_, (lambda n_=n_: getattr(m1, n_))) for n_ in names] + [("C", lambda: m1.C), ("S", lambda: m1.S)]
+        for an in ("axis_l", "axis_t", "axis_1", "axis_2"):
+            if hasattr(m1, an):
+                getters.append((an, (lambda an=an: getattr(m1, an))))
+        for extra in ("get_lambda", "get_mu", "get_bulk"):
+            if hasattr(m1, extra):
+                getters.append((extra, getattr(m1, extra)))
+        for pr in ("kt", "Gt"):
+            if hasattr(m1, pr):
+                getters.append((pr, (lambda pr=pr: getattr(m1, pr))))
+        for gname, g in getters:
+            x = g()
+            if isinstance(x, np.ndarray) and x.flags.writeable and x.size:
+                x *= c.get("factor", 0.5)                 # in-place work on the returned array
+                touched.append(gname)
+        now = {n_: getattr(m1, n_) for n_ in names}
+        C1, S1 = m1.C, m1.S
+        ref = cls(c["dim"], **{k: (np.array(v, copy=True) if isinstance(v, np.ndarray) else v) for k, v in now.items()},
+                  **{k: before[a].astype(float) for k, a in zip(axkw, ("axis1", "axis2"))})
+        cmp(C1, ref.C, "C after in-place edits of returned arrays vs the law rebuilt from the reported parameters")
+        cmp(S1, ref.S, "S after in-place edits of returned arrays vs the law rebuilt from the reported parameters")
+        out["touched"] = touched
+        out["params_changed"] = [n_ for n_ in c["fields"] if not np.array_equal(np.asarray(now[n_], dtype=float), before[n_].astype(float))]
+        out["law_changed"] = bool(np.abs(C1 - C0).max() > 0)
+        for k in list(args):
+            args[k] = before[k].copy()                   # the handed-in arrays are the subject of the other cases
     elif w == "utils":
         P1 = Get_Pmat(args["axis1"], args["axis2"])
         check("Get_Pmat")
